@@ -272,11 +272,61 @@ def derive_after_use(acc):
                 acc.violation({"symptom": "mapping-node-alignment", "kind": "derive-after-use-receiver", "failing_items": False}, w_, f"deriving {label} changed the receiver: {jsonable(r3.values)}")
 
 
+def mutable_default_items(acc):
+    """'each equal to what a single run on that combination returns' when the inner function MUTATES a mutable signature
+    default: every item (runner.map and mapping node, zip and product, plain and renamed wrapper, both runners, the same
+    graph object mapped twice) must see a fresh default, exactly as single runs do."""
+    f = T.fn("mf", ["x", "bag"], ["out"], defaults={"bag": {"$list": []}}, behav={"py": "(bag.append(x), tuple(bag))[1]"})
+    f2 = T.fn("mf", ["x", "w", "bag"], ["out"], defaults={"bag": {"$list": []}}, behav={"py": "(bag.append((x, w)), tuple(bag))[1]"})
+    xs = [("i", 0), ("i", 1), ("i", 2)]
+    ws = [("w", 0), ("w", 1)]
+    for runner in ("sync", "async"):
+        for shape in ("zip1", "product2"):
+            inner = T.set_async(T.prog([f if shape == "zip1" else f2], name="item"), runner == "async")
+            combos = [(x,) for x in xs] if shape == "zip1" else [(x, w) for x in xs[:2] for w in ws]
+            exp = [(c[0],) if shape == "zip1" else (c,) for c in combos]  # a single run sees only its own element
+            ins = {"x": list(xs)} if shape == "zip1" else {"x": list(xs[:2]), "w": list(ws)}
+            mo = ["x"] if shape == "zip1" else ["x", "w"]
+            mode = "zip" if shape == "zip1" else "product"
+            for entry in ("map", "node", "node-renamed"):
+                h = H()
+                w_ = {"mutable_default_items": True, "runner": runner}
+                try:
+                    if entry == "map":
+                        g = build(inner, h)
+                        rows = []
+                        for _ in range(2):
+                            x = execute(inner, dict(ins), runner=runner, h=h, graph=g, method="map", map_over=mo, map_mode=mode, canon_inputs=False)
+                            rows.append([r.values.get("out") for r in x.result] if x.exc is None else repr(x.exc))
+                    else:
+                        spec = T.gnode("item", inner, map_over=mo, map_mode=mode)
+                        ins2 = dict(ins)
+                        if entry == "node-renamed":
+                            spec["rename_in"] = {"x": "xs"}
+                            ins2["xs"] = ins2.pop("x")
+                        outer = T.prog([spec])
+                        g = build(outer, h)
+                        rows = []
+                        for _ in range(2):
+                            x = execute(outer, dict(ins2), runner=runner, h=h, graph=g, canon_inputs=False)
+                            rows.append(list(x.result.values.get("out")) if x.exc is None and x.result is not None else repr(x.exc))
+                except Exception as e:  # noqa: BLE001
+                    acc.violation({"symptom": "unexpected-exception", "entry": entry, "type": type(e).__name__}, w_, f"mutable default, {shape} via {entry}: {type(e).__name__}: {e}")
+                    continue
+                acc.evaluations += 2
+                acc.key(("mutable-default-items", runner, shape, entry))
+                for k, row in enumerate(rows):
+                    if row != exp:
+                        acc.violation({"symptom": "item-differs-from-single-run", "entry": "map" if entry == "map" else "node", "cause": "shared-default"}, w_, f"{shape} via {entry} ({runner}), pass {k + 1}: items returned {jsonable(row)}, single runs return {jsonable(exp)} (a mutable signature default is shared between items)")
+                        break
+
+
 def run_shard(shard):
     tier, seed, s, n = shard
     acc = Acc()
     if s == 0:
         derive_after_use(acc)
+        mutable_default_items(acc)
     for ci, cfg in enumerate(configs(tier)):
         if ci % n != s:
             continue
@@ -312,6 +362,10 @@ def coverage_extra(acc, tier, seed):
 
 
 def replay(rep):
+    if rep.get("mutable_default_items"):
+        acc = Acc()
+        mutable_default_items(acc)
+        return [v["message"] for v in acc.violations.values()]
     if rep.get("derive_after_use"):
         acc = Acc()
         derive_after_use(acc)
